@@ -13,6 +13,11 @@ for mp in sorted(glob.glob(os.path.join(V, "seeded", "*", "meta.json"))):
     for k, v in chk:
         if v["status"] == "CAUGHT":
             how = v.get("detail", "").split(":")[0].strip()
+    fin = st.get("final_check")
+    if fin:
+        verdict = "final run (%s): %s (%.0fs)" % (fin.get("tier", "quick"), fin["status"], fin.get("wall_s", 0))
+        if fin["status"] == "CAUGHT":
+            how = fin.get("detail", "").split(":")[0].strip()
     readme = os.path.join(os.path.dirname(mp), "README.md")
     title = ""
     if os.path.exists(readme):
